@@ -262,15 +262,23 @@ func ConfirmHang(l *evlog.Log, gap time.Duration) (bool, []string) {
 	return norm(a) == norm(b), b
 }
 
-// FreePort returns a TCP port that was free a moment ago.
+// FreePort returns a TCP port for this process's HTTP API. Concurrent child processes must never
+// pick the same port (a child whose API failed to bind would silently scrape another child's API), so
+// the port is derived from the process id (unique among live processes) and probed.
+var portCtr int
+
 func FreePort() int {
-	l, err := net.Listen("tcp", "127.0.0.1:0")
-	if err != nil {
-		return 0
+	for i := 0; i < 50; i++ {
+		p := 10000 + (os.Getpid()+portCtr*20011)%20000
+		portCtr++
+		l, err := net.Listen("tcp", fmt.Sprintf(":%d", p))
+		if err != nil {
+			continue
+		}
+		l.Close()
+		return p
 	}
-	p := l.Addr().(*net.TCPAddr).Port
-	l.Close()
-	return p
+	return 0
 }
 
 // HTTPDo performs a request against the client's HTTP API.
